@@ -960,7 +960,7 @@ def replay_witnesses(ctx):
 
 def run(ctx):
     quick = ctx.tier == "quick"
-    n_hist = 1600 if quick else 100000
+    n_hist = 1600 if quick else 60000
     ctx.rule = ("histories of <=40 operations (+ up to 6 initial appends) over one DataContainer / CornerDataContainer with up to "
                 "3 logical attributes, each present as a sparse and a dense twin driven in lock-step (85%) or singly; all five "
                 "value types, arity 1-3, custom / implicit / ill-typed defaults; values: python and numpy scalars, lists, tuples, "
